@@ -80,6 +80,11 @@ type c07Checker struct {
 	classes map[string]struct{}
 	sampled map[string]struct{}
 	caps    map[string]int
+
+	// baseline (never an oracle, see classify): opens that failed although a requested protocol is handled and
+	// the dialer's knowledge contains nothing stale
+	unexpected      int64
+	unexpectedFirst string
 }
 
 func atts2reqs(atts []*c07Attempt) []c07Req {
@@ -371,7 +376,21 @@ func (ck *c07Checker) scopesAfterClose(in *c07Inst, atts []*c07Attempt) error {
 	return nil
 }
 
+// stale: does dialer k believe in a protocol of the universe that no handler of the listener accepts?
+func (in *c07Inst) stale(k int) bool {
+	for _, u := range c07U {
+		if in.knownSet[k][u] && len(in.acceptors(u)) == 0 {
+			return true
+		}
+	}
+	return false
+}
+
 // classify records the observed outcome class (evidence that the run is not vacuous; never an oracle).
+// It also keeps the BASELINE honest: with a common protocol and no stale knowledge the implementation's design
+// makes every open succeed (optimistic choice of a protocol that is handled, or full negotiation). The statement
+// does not promise that, so a failure there is not a violation; it is reported as a cap (the run then does not
+// claim to be exhaustive) so that a tree on which nothing can be opened any more does not pass silently.
 func (ck *c07Checker) classify(in *c07Inst, atts []*c07Attempt, window []*c07Inv) {
 	for _, a := range atts {
 		path := "-"
@@ -412,6 +431,12 @@ func (ck *c07Checker) classify(in *c07Inst, atts []*c07Attempt, window []*c07Inv
 		}
 		ck.r.Outcome(cls)
 		ck.mu.Lock()
+		if !a.ok() && in.common(a.list) && !in.stale(a.dk) {
+			ck.unexpected++
+			if ck.unexpectedFirst == "" {
+				ck.unexpectedFirst = fmt.Sprintf("%s | state: %s", c07DescAttempt(a), in.pkey)
+			}
+		}
 		ck.classes[fmt.Sprintf("%s|%v|%s", in.pkey, a.list, cls)] = struct{}{}
 		_, seenCls := ck.sampled[cls]
 		ck.sampled[cls] = struct{}{}
@@ -598,6 +623,9 @@ func c07Search(t *testing.T, part string, blank bool, depth int, deadline time.T
 		ck.nNew.Load(), float64(ck.tNew.Load())/1e9, float64(ck.tApply.Load())/1e9, float64(ck.tVisit.Load())/1e9)
 	if st.Probed > 0 && ck.opens.Load() == 0 {
 		r.Cap("no open was executed")
+	}
+	if ck.unexpected > 0 {
+		r.Cap("baseline: %d opens failed although the listener handles a requested protocol and the dialer's knowledge contains nothing stale (not a violation of the statement, which promises no success); first: %s", ck.unexpected, ck.unexpectedFirst)
 	}
 	r.Flush()
 }
